@@ -38,7 +38,7 @@ ACT_DIM = 2          # continuous action dimension
 AGENT_IDS = ["a_0", "b_0"]
 MA_OBS = {"a_0": 3, "b_0": 2}
 MA_ACT = {"a_0": 2, "b_0": 1}
-NOISE_CLIP, POLICY_NOISE = 0.5, 0.2
+NOISE_CLIP, POLICY_NOISE = 0.5, 0.4     # clip at 1.25 sigma so that the noise clamp is exercised in most batches
 MAX_CELLS = 10       # cells per (online, target) pair that go to Coq (the oracle looks at every cell)
 TOL_LOSS, TOL_W = 1e-4, 1e-6
 
@@ -380,7 +380,8 @@ class C08(vlib.Driver):
         cases = []
         gammas = [0.0, 0.5, 0.99, 1.0]
         taus = [1e-3, 0.25, 1.0]
-        pres = [[], ["learn", "clone"], ["learn", "ckpt"], ["learn", "mut_arch"], ["learn", "mut_param"], ["learn", "mut_act"]]
+        pres = [[], ["learn", "clone"], ["learn", "ckpt"], ["learn", "mut_arch"], ["learn", "mut_param"], ["learn", "mut_act"],
+                ["learn", "load"]]
         per_algo = 12 if tier == "quick" else 120
         variants = ["DQN", "DDQN", "CQN", "CDQN", "Rainbow", "DDPG", "TD3", "MADDPG", "MATD3"]
         n = 0
@@ -406,8 +407,9 @@ class C08(vlib.Driver):
                     case["pf"] = 1 + (j % 3)
                 if algo in SINGLE_AC:
                     case["share"] = (j % 4 == 3)
-                    lo = [-1.0, rng.choice([-1.0, -0.5, 0.0])]
-                    case["lo"], case["hi"] = lo, [1.0, rng.choice([0.25, 0.5, 2.0])]
+                    # boxes narrower than the noise clip, so that the clamp to the action box acts on most rows
+                    lo = [rng.choice([-1.0, -0.25]), rng.choice([-0.5, -0.125, 0.0])]
+                    case["lo"], case["hi"] = lo, [rng.choice([1.0, 0.25]), rng.choice([0.125, 0.25, 2.0])]
                 if algo in MULTI:
                     case["ma_split"] = (j % 2 == 1)
                 if algo == "Rainbow":
@@ -443,6 +445,17 @@ class C08(vlib.Driver):
                 agent.save_checkpoint(path)
                 fresh = build(dict(case, seed=case["seed"] + 1))      # different initial weights
                 fresh.load_checkpoint(path)
+            finally:
+                os.unlink(path)
+            return fresh
+        if op == "load":                                              # the class-method path: rebuilds the agent from the file
+            d = vlib.BUILD / ("C08" + vlib.ALT_TAG)
+            d.mkdir(parents=True, exist_ok=True)
+            fd, path = tempfile.mkstemp(suffix=".pt", dir=str(d))
+            os.close(fd)
+            try:
+                agent.save_checkpoint(path)
+                fresh = type(agent).load(path)
             finally:
                 os.unlink(path)
             return fresh
@@ -736,6 +749,17 @@ class C08(vlib.Driver):
         if case["algo"] == "Rainbow":
             rb = case["rb"]
             labs.append(f"rainbow={('per-' + rb.get('wshape', 'col')) if rb['per'] else 'uniform'}/{'nstep' if rb['nstep_batch'] else '1step'}/{'combined' if rb['combined'] else 'single'}")
+        if obs.get("steps") and case["algo"] in SINGLE_AC:
+            box = clip = False
+            for rec in obs["steps"]:
+                t = rec["tables"]
+                for i, d in enumerate(t["d"]):
+                    if d == 0:
+                        for p_, n_, a_ in zip(t["pi"][i], t["noise"][i], t["an"][i]):
+                            clip = clip or abs(n_) > NOISE_CLIP
+                            box = box or abs(a_ - (p_ + max(-NOISE_CLIP, min(NOISE_CLIP, n_)))) > 1e-6
+            labs.append(f"live-row:noise-clip={'active' if clip else 'inactive'}")
+            labs.append(f"live-row:box-clamp={'active' if box else 'inactive'}")
         if obs.get("steps"):
             _, upd = self.update_steps(case, obs)
             labs.append(f"updates={sum(upd)}of{len(upd)}")
